@@ -74,6 +74,7 @@ Sorted(c, ms) == \A i, j \in 1..Len(ms) : (i < j /\ PosOfMut(c, ms[i]) # -1 /\ P
 (* ---- relations between real runs ------------------------------------------------------ *)
 Texts(ms) == [i \in 1..Len(ms) |-> ms[i].text]
 Bag(ms) == [t \in ToSet(Texts(ms)) |-> Cardinality({i \in 1..Len(ms) : ms[i].text = t})]
+IsGff(a) == a \in {"gff", "gffs"}        \* gffs: the same GFF3 with its rows in coordinate order (rows of one CDS need not be adjacent)
 SameRun(a, b, ignoreAnno, ignoreCmd) ==
   /\ (ignoreCmd \/ a.cmd = b.cmd) /\ (ignoreAnno \/ a.anno = b.anno) /\ a.append = b.append /\ a.s = b.s /\ a.e = b.e /\ a.agg = b.agg /\ a.thr = b.thr
 RowsByQ(ro) == [q \in {ro.rows[i].qi : i \in 1..Len(ro.rows)} |-> (CHOOSE i \in 1..Len(ro.rows) : ro.rows[i].qi = q)]
@@ -127,7 +128,7 @@ FailedRun(v, c, k, o) ==
       plainOf == FindRun(v, LAMBDA x : x.cmd = r.cmd /\ x.anno = r.anno /\ x.append = r.append /\ ~x.agg /\ x.s = -1 /\ x.e = -1 /\ ~x.stdin)
       wiring == IF ~CliBad(ro) THEN {} ELSE
                   (IF r.agg THEN {"C13-cli-wiring"} ELSE IF r.s # -1 \/ r.e # -1 THEN {"C15-cli-wiring"} ELSE {"C04-cli-wiring", "C05-cli-wiring"})
-                  \cup (IF r.anno = "gff" THEN {"C14-cli-wiring"} ELSE {}) \cup (IF r.cmd = "samvar" THEN {"C11-cli-wiring"} ELSE {})
+                  \cup (IF IsGff(r.anno) THEN {"C14-cli-wiring"} ELSE {}) \cup (IF r.cmd = "samvar" THEN {"C11-cli-wiring"} ELSE {})
   IN
   wiring \cup
   IF r.agg THEN
@@ -137,7 +138,7 @@ FailedRun(v, c, k, o) ==
   ELSE IF r.stdin THEN
      (IF plainOf # {} /\ ~SameListsOK(ro, o.runs[CHOOSE x \in plainOf : TRUE]) THEN {"C15-stdin"} ELSE {})
   ELSE
-     (IF ro.err # "" \/ ro.header # "query,mutations" THEN {IF r.anno = "gff" THEN "C14-gff-rejected" ELSE "C04-error"}
+     (IF ro.err # "" \/ ro.header # "query,mutations" THEN {IF IsGff(r.anno) THEN "C14-gff-rejected" ELSE "C04-error"}
       ELSE
         (IF r.cmd = "variants"
          THEN (IF Len(ro.rows) = Len(v.qs) /\ \A i \in 1..Len(ro.rows) : ro.rows[i].qi = i - 1 THEN {} ELSE {"C04-row-per-query"})
@@ -146,9 +147,13 @@ FailedRun(v, c, k, o) ==
         \cup (IF \A i \in 1..Len(ro.rows) : ro.rows[i].qi \in 0..(Len(v.qs) - 1) => NucOK(v, c, Form(c, r)[ro.rows[i].qi + 1], ro.rows[i].muts, r.append) THEN {} ELSE {"C04-nuc"})
         \cup (IF \A i \in 1..Len(ro.rows) : ro.rows[i].qi \in 0..(Len(v.qs) - 1) => AaOK(Form(c, r)[ro.rows[i].qi + 1], ro.rows[i].muts) THEN {} ELSE {"C04-aa"})
         \cup (IF \A i \in 1..Len(ro.rows) : Sorted(c, ro.rows[i].muts) THEN {} ELSE {"C14-sorted"}))
-     \cup (IF r.anno = "gff" /\ r.cmd \in {"variants", "samvar"}
+     \cup (IF IsGff(r.anno) /\ r.cmd \in {"variants", "samvar"}
            THEN LET g == FindRun(v, LAMBDA x : x.anno = "gb" /\ SameRun(x, r, TRUE, FALSE) /\ ~x.stdin) IN
                 IF g # {} /\ ~GbGffOK(c, o.runs[CHOOSE x \in g : TRUE], ro) THEN {"C14-gb-vs-gff"} ELSE {}
+           ELSE {})
+     \cup (IF r.anno = "gffs" /\ r.cmd \in {"variants", "samvar"}
+           THEN LET g == FindRun(v, LAMBDA x : x.anno = "gff" /\ SameRun(x, r, TRUE, FALSE) /\ ~x.stdin) IN
+                IF g # {} /\ ~GbGffOK(c, o.runs[CHOOSE x \in g : TRUE], ro) THEN {"C14-gff-row-order"} ELSE {}
            ELSE {})
      \cup (IF r.cmd = "topa-variants"
            THEN LET g == FindRun(v, LAMBDA x : x.cmd = "samvar" /\ SameRun(x, r, FALSE, TRUE)) IN
